@@ -261,7 +261,7 @@ def shapes(nprop, allow_pseudo=True):
             return
         for f in forests(k - 1):
             yield ('state', f)
-            if len(f) >= 1:
+            if len(f) >= 1 and all(x[0] != 'final' for x in f):
                 yield ('parallel', f)
     for f in forests(nprop):
         yield ('scxml', f)
@@ -381,15 +381,16 @@ def rand_block(rng, vars_, sids, vidc, depth=0, faults=0.0, only_in=False, maxle
 def rand_chart(rng, nprop=None, content=0.5, faults=0.0, only_in=False, pseudo=True, nvars=2):
     nprop = nprop or rng.randint(2, 8)
     # random shape
-    def rshape(k):
-        # returns forest of total size k
+    def rshape(k, in_parallel=False):
+        # returns forest of total size k; <final> is no child of <parallel> (schema)
         f = []
         while k > 0:
             sz = rng.randint(1, k)
             if sz == 1:
-                f.append((rng.choice(['state', 'state', 'state', 'final']), []))
+                f.append((rng.choice(['state'] if in_parallel else ['state', 'state', 'state', 'final']), []))
             else:
-                f.append((rng.choice(['state', 'state', 'parallel']), rshape(sz - 1)))
+                kind = rng.choice(['state', 'state', 'parallel'])
+                f.append((kind, rshape(sz - 1, kind == 'parallel')))
             k -= sz
         return f
     tree = build(('scxml', rshape(nprop)))
@@ -405,18 +406,27 @@ def rand_chart(rng, nprop=None, content=0.5, faults=0.0, only_in=False, pseudo=T
     if vars_:
         tree['data'] = [(v, ('n', rng.randint(0, 2))) for v in vars_]
     props = proper_states(tree)
+    pars = [n for n in props if n['kind'] == 'parallel']
     ntr = rng.randint(1, max(2, nprop + 2))
     for _ in range(ntr):
-        src = rng.choice(props + [tree] * (1 if rng.random() < 0.1 else 0))
+        src = rng.choice(props)
         if src['kind'] == 'final':
             continue
         r = rng.random()
         if r < 0.15:
             targets = None
-        elif r < 0.9:
+        elif r < 0.9 or not pars:
             targets = [rng.choice(sids)]
         else:
-            targets = list(dict.fromkeys(rng.choice(sids) for _ in range(2)))
+            # a legal multi-target: states in two different regions of one <parallel>
+            p = rng.choice(pars)
+            regs = [k for k in p['kids'] if k['kind'] in ('state', 'parallel')]
+            if len(regs) >= 2:
+                r1, r2 = rng.sample(regs, 2)
+                pick = lambda r: rng.choice([d['sid'] for d in walk(r) if d['kind'] in ('state', 'parallel', 'final')])
+                targets = [pick(r1), pick(r2)]
+            else:
+                targets = [rng.choice(sids)]
         ev = None if rng.random() < 0.2 else rng.choice(DESCS)
         cond = None if rng.random() < 0.6 else rand_bexpr(rng, vars_, sids, 0, faults * 0.5, only_in)
         body = rand_block(rng, vars_, sids, vidc, 0, faults, only_in) if rng.random() < content else []
